@@ -61,7 +61,7 @@ pub fn dispatch(cfg: &Cfg, child: bool) -> (Report, Vec<(&'static str, J)>) {
             run_child(cfg, &bin, scale, &mut rep, &mut extra);
         }
     }
-    if !child && cfg.replay.is_none() && (cfg.prop == "C13" || cfg.prop == "C14") {
+    if !child && cfg.replay.is_none() && (cfg.prop == "C13" || cfg.prop == "C14" || cfg.prop == "C06") {
         if let Ok(dir) = std::env::var("VERIF_MIRI_DIR") {
             run_miri(cfg, &dir, &mut rep, &mut extra);
         }
@@ -75,9 +75,10 @@ pub fn dispatch(cfg: &Cfg, child: bool) -> (Report, Vec<(&'static str, J)>) {
 /// other; a Miri diagnostic (or any abnormal end) makes this stage inconclusive, never a violation.
 fn run_miri(cfg: &Cfg, harness_dir: &str, rep: &mut Report, extra: &mut Vec<(&'static str, J)>) {
     let t0 = std::time::Instant::now();
-    let out = std::process::Command::new("cargo")
+    // generous wall-clock watchdog (its firing is inconclusive, not a verdict)
+    let out = std::process::Command::new("timeout")
         .current_dir(harness_dir)
-        .args(["+nightly", "miri", "run", "--offline", "--bin", "verif", "--"])
+        .args(["1500", "cargo", "+nightly", "miri", "run", "--offline", "--bin", "verif", "--"])
         .arg(&cfg.prop)
         .args(["--child", "--mini", "--tier", "quick", "--seed"])
         .arg(cfg.seed.to_string())
